@@ -101,6 +101,57 @@ class _Canon(ast.NodeTransformer):
             n.body, n.orelse = n.orelse, n.body
         return n
 
+    # ---- `X = []; for T in IT: [if C:] X.append(E)`  ->  `X = [E for T in IT if C]`  (and set()/add)
+    @staticmethod
+    def _append_loop(init, loop):
+        if not (isinstance(init, ast.Assign) and len(init.targets) == 1 and isinstance(init.targets[0], ast.Name)):
+            return None
+        x = init.targets[0].id
+        v = init.value
+        kind = "list" if (isinstance(v, ast.List) and not v.elts) or (isinstance(v, ast.Call) and ast.unparse(v) == "list()") else \
+            "set" if isinstance(v, ast.Call) and ast.unparse(v) == "set()" else None
+        if kind is None or not isinstance(loop, ast.For) or loop.orelse or len(loop.body) != 1:
+            return None
+        conds = []
+        st = loop.body[0]
+        while isinstance(st, ast.If) and not st.orelse and len(st.body) == 1:
+            conds.append(st.test)
+            st = st.body[0]
+        if not (isinstance(st, ast.Expr) and isinstance(st.value, ast.Call) and isinstance(st.value.func, ast.Attribute) and isinstance(st.value.func.value, ast.Name)
+                and st.value.func.value.id == x and st.value.func.attr == ("append" if kind == "list" else "add") and len(st.value.args) == 1 and not st.value.keywords):
+            return None
+        used = {n.id for n in ast.walk(loop.iter) if isinstance(n, ast.Name)} | {n.id for c in conds for n in ast.walk(c) if isinstance(n, ast.Name)} | \
+            {n.id for n in ast.walk(st.value.args[0]) if isinstance(n, ast.Name)}
+        if x in used:
+            return None
+        gen = ast.comprehension(target=loop.target, iter=loop.iter, ifs=conds, is_async=0)
+        comp = (ast.ListComp if kind == "list" else ast.SetComp)(elt=st.value.args[0], generators=[gen])
+        new = ast.Assign(targets=[ast.Name(id=x, ctx=ast.Store())], value=comp)
+        return ast.copy_location(ast.fix_missing_locations(ast.copy_location(new, init)), init)
+
+    def _fold_loops(self, body):
+        out = []
+        i = 0
+        while i < len(body):
+            if i + 1 < len(body):
+                m = self._append_loop(body[i], body[i + 1])
+                if m is not None:
+                    m.lineno = body[i + 1].lineno
+                    out.append(m)
+                    i += 2
+                    continue
+            out.append(body[i])
+            i += 1
+        return out
+
+    def generic_visit(self, node):
+        node = super().generic_visit(node)
+        for fld in ("body", "orelse", "finalbody"):
+            b = getattr(node, fld, None)
+            if isinstance(b, list) and b and isinstance(b[0], ast.stmt):
+                setattr(node, fld, self._fold_loops(b))
+        return node
+
     def visit_IfExp(self, n):
         self.generic_visit(n)
         if isinstance(n.test, ast.UnaryOp) and isinstance(n.test.op, ast.Not):
